@@ -171,6 +171,11 @@ iwrc iwstw_schedule(struct iwstw *stw, iwstw_task_f fn, void *arg) {
       goto finish;
     }
   }
+  if (stw->shutdown) { // woken by iwstw_shutdown(): the worker may be gone already
+    rc = IW_ERROR_INVALID_STATE;
+    pthread_mutex_unlock(&stw->mtx);
+    goto finish;
+  }
 
   if (stw->tail) {
     stw->tail->next = task;
